@@ -88,7 +88,7 @@ def kitchen_sink_src(date="2024-01-01T00:00:00", ns_prefix="xtce") -> str:
                                      base_container_name="CCSDSPacket",
                                      restriction_criteria=[{M}.Comparison("100", "PKT_APID", operator="=="),
                                                            {M}.Comparison("1", "VERSION", operator="<", use_calibrated_value=False)]),
-        containers.SequenceContainer("TXT", [P["NLEN"], P["NAME"], P["TAG"], P["LBL"], P["BLOB"], P["FIX"], P["BLK"], P["T_ABS"], P["T_REL"]],
+        containers.SequenceContainer("TXT", [COMMON, P["NLEN"], P["NAME"], P["TAG"], P["LBL"], P["BLOB"], P["FIX"], P["BLK"], P["T_ABS"], P["T_REL"]],
                                      base_container_name="CCSDSPacket", abstract=False, short_description="text packet",
                                      restriction_criteria=[{M}.BooleanExpression({M}.Anded([
                                          {M}.Condition("PKT_APID", "==", right_value="200", right_use_calibrated_value=False),
